@@ -128,7 +128,7 @@ def handle (op : String) (args : List String) (impl : Impl) : Option Ans :=
       | .ok [r] => (match r.toInt? with
           | some r => verdict [("value", r == v)]
           | none => "FAIL:decode")
-      | .other "err" => verdict [("must_succeed_within_2_centuries", !small)]
+      | .other "err" => verdict [("must_succeed_within_2_centuries", !small), ("must_succeed_when_the_count_fits_an_i64", !fits)]
       | .other w => "FAIL:" ++ w
       | _ => "FAIL:decode"
     let isOk : Bool := match impl with | .ok _ => true | _ => false
@@ -144,7 +144,8 @@ def handle (op : String) (args : List String) (impl : Impl) : Option Ans :=
     let sp := match impl with
       | .ok [r] => (match r.toInt? with
           | some r => if small then verdict [("value", r == v)]
-                      else if fits then verdict [("value_or_bound", r == v ∨ r == bound)]
+                      -- "never return a different number": a count that fits is returned as it is
+                      else if fits then verdict [("value_when_the_count_fits_an_i64", r == v)]
                       else verdict [("bound", r == bound)]
           | none => "FAIL:decode")
       | .other w => "FAIL:" ++ w
